@@ -5,7 +5,7 @@ import fam_write
 from fam_write import run_mc, gen_behaviours
 
 R_CONSTS = dict(fam_write.BASE_CONSTS, Keys={1}, Writers={"c1", "c2"}, OpsPer=1, InitStates={"none", "live", "deleted"}, ExpSet={0, 1, 4},
-                FaultKinds={"err", "unka", "unkn"}, FaultBudget=2, Compactors={"k1"}, CompactRevs={0, 4}, MaxCompacts=1)
+                FaultKinds={"err", "unka", "unkn", "rerr"}, FaultBudget=2, Compactors={"k1"}, CompactRevs={0, 4}, MaxCompacts=1)
 
 MC_INV = {"C09": ["IndexAgrees", "Chain", "FailedLeavesKey", "NoOvertake", "NoOvertakeRetry", "Resolved", "AckedDurable",
                   "EventsMatchWrites", "AckedEmitted", "Converged", "CompactClamp", "RepairStillPossible", "UniqueRevision"]}
